@@ -17995,6 +17995,52 @@ impl<SP: SignerProvider> FundedChannel<SP> {
 
 #[cfg(feature = "verif_hooks")]
 impl<SP: SignerProvider> FundedChannel<SP> {
+	/// Verification hook (C10): the sources of this channel's outbound HTLCs as a stale-manager
+	/// force-close at startup would see them: `holding` = `AddHTLC` entries of the holding cell,
+	/// `announced-blocked` = `LocalAnnounced` HTLCs whose commitment sits in a blocked monitor update
+	/// (both end up in `ShutdownResult::dropped_outbound_htlcs`), `pending` = every entry of
+	/// `pending_outbound_htlcs` (what `inflight_htlc_sources` yields once the holding cell is drained).
+	/// Read-only.
+	pub(crate) fn verif_outbound_htlc_sources(&self) -> Vec<(HTLCSource, PaymentHash, &'static str)> {
+		let mut out = Vec::new();
+		for upd in self.context.holding_cell_htlc_updates.iter() {
+			if let HTLCUpdateAwaitingACK::AddHTLC { source, payment_hash, .. } = upd {
+				out.push((source.clone(), *payment_hash, "holding"));
+			}
+		}
+		for htlc in self.context.pending_outbound_htlcs.iter() {
+			out.push((htlc.source.clone(), htlc.payment_hash, "pending"));
+			if let OutboundHTLCState::LocalAnnounced(_) = htlc.state {
+				// (force_shutdown looks at the first counterparty-commitment step of the blocked updates only)
+				let in_blocked = self
+					.context
+					.blocked_monitor_updates
+					.iter()
+					.flat_map(|u| u.update.updates.iter())
+					.find_map(|step| match step {
+						ChannelMonitorUpdateStep::LatestCounterpartyCommitment { htlc_data, .. } => {
+							let dust = htlc_data.dust_htlcs.iter().map(|(_, s)| s.as_ref());
+							let nondust = htlc_data.nondust_htlc_sources.iter().map(|s| Some(s));
+							Some(dust.chain(nondust).any(|s| s == Some(&htlc.source)))
+						},
+						ChannelMonitorUpdateStep::LatestCounterpartyCommitmentTXInfo {
+							htlc_outputs, ..
+						} => Some(
+							htlc_outputs
+								.iter()
+								.any(|(_, s)| s.as_ref().map(|s| &**s) == Some(&htlc.source)),
+						),
+						_ => None,
+					})
+					.unwrap_or(false);
+				if in_blocked {
+					out.push((htlc.source.clone(), htlc.payment_hash, "announced-blocked"));
+				}
+			}
+		}
+		out
+	}
+
 	/// Canonical text of the hand-serialized, positional per-channel state (C12): one `chan` line (announced
 	/// `ChannelUpdateStatus`, announcement-sigs state, channel state flags, resend order, pending / holding-cell fee
 	/// update, HTLC id counters, monitor-pending flags) and one line per inbound HTLC, outbound HTLC and holding-cell
